@@ -4,6 +4,7 @@ import (
 	"fmt"
 	"go/ast"
 	"go/constant"
+	"go/token"
 	"go/types"
 	"strings"
 
@@ -52,8 +53,78 @@ func init() {
 		// how much of the file GetFavorites hands back: io.ReadAll on the opened file (no limit) or
 		// through io.LimitReader(file, N) with a constant N
 		lf.raw(fmt.Sprintf("/-- %s -/\ndef getFavoritesReadLimit : Option Nat := %s\n\n", "none: the whole file is read; some n: at most n bytes are read", favReadLimit(pp, "GetFavorites")))
+		// does types.BinaryWrite return the error of binary.Write to its caller?
+		lf.raw(fmt.Sprintf("def binaryWriteReturnsError : Bool := %v\n", favReturnsCallError(l.load("types"), "BinaryWrite", "binary", "Write")))
 		lf.write(out)
 	})
+}
+
+// favReturnsCallError: fn either says `return pkg.call(...)`, or assigns (with `=`) the call's result to
+// its named error result and ends with `return` / `return <that result>`. A `:=` (a new, shadowing variable)
+// or a dropped result does not count.
+func favReturnsCallError(p *packages.Package, fn, pkg, call string) bool {
+	var fd *ast.FuncDecl
+	for _, f := range p.Syntax {
+		for _, d := range f.Decls {
+			if x, ok := d.(*ast.FuncDecl); ok && x.Name.Name == fn && x.Body != nil && x.Recv == nil {
+				fd = x
+			}
+		}
+	}
+	if fd == nil {
+		fatal("fav: no function %s in %s", fn, p.PkgPath)
+	}
+	var named types.Object
+	if fd.Type.Results != nil {
+		for _, r := range fd.Type.Results.List {
+			for _, n := range r.Names {
+				if o := p.TypesInfo.Defs[n]; o != nil && o.Type().String() == "error" {
+					named = o
+				}
+			}
+		}
+	}
+	isCall := func(e ast.Expr) bool {
+		ce, ok := e.(*ast.CallExpr)
+		if !ok {
+			return false
+		}
+		sel, ok := ce.Fun.(*ast.SelectorExpr)
+		if !ok || sel.Sel.Name != call {
+			return false
+		}
+		x, ok := sel.X.(*ast.Ident)
+		return ok && x.Name == pkg
+	}
+	isNamed := func(e ast.Expr) bool {
+		id, ok := e.(*ast.Ident)
+		return ok && named != nil && p.TypesInfo.Uses[id] == named
+	}
+	direct, assigned := false, false
+	// top-level statements of the body only (the deferred recover handler is a function literal)
+	for _, st := range fd.Body.List {
+		switch v := st.(type) {
+		case *ast.ReturnStmt:
+			if len(v.Results) == 1 && isCall(v.Results[0]) {
+				direct = true
+			}
+		case *ast.AssignStmt:
+			if v.Tok == token.ASSIGN && len(v.Lhs) == 1 && len(v.Rhs) == 1 && isCall(v.Rhs[0]) && isNamed(v.Lhs[0]) {
+				assigned = true
+			}
+		}
+	}
+	if direct {
+		return true
+	}
+	if !assigned || len(fd.Body.List) == 0 {
+		return false
+	}
+	last, ok := fd.Body.List[len(fd.Body.List)-1].(*ast.ReturnStmt)
+	if !ok {
+		return false
+	}
+	return len(last.Results) == 0 || (len(last.Results) == 1 && isNamed(last.Results[0]))
 }
 
 // favReadLimit: the limit on the bytes read by the io.ReadAll / os.ReadFile call of fn, as a Lean term.
